@@ -54,6 +54,7 @@ type PathCtx struct {
 	reached map[string]bool
 	cfg    *RunConfig
 	nameCount map[string]int
+	decided map[*Term]bool
 	inputs []namedInput
 	twin   bool
 }
@@ -119,6 +120,16 @@ func (p *PathCtx) Branch(c *Term) bool {
 	if c.op == OpConst {
 		return c.c != 0
 	}
+	if v, ok := p.decided[c]; ok {
+		return v
+	}
+	r := p.branch(c)
+	p.decided[c] = r
+	p.decided[p.tb.Not(c)] = !r
+	return r
+}
+
+func (p *PathCtx) branch(c *Term) bool {
 	p.stats.Branches++
 	if d, ok := p.next(); ok {
 		switch d.K {
@@ -181,6 +192,16 @@ func (p *PathCtx) Choice(n int) int {
 	}
 	p.trail = append(p.trail, Dec{'c', 0})
 	return 0
+}
+
+// Bind fixes a fresh input variable to a value chosen by a Choice decision.
+func (p *PathCtx) Bind(t *Term, v uint64) {
+	c := p.tb.Eq(t, p.tb.Const(t.sort, v))
+	p.pc = append(p.pc, c)
+	p.solver.Assert(c)
+	if p.M != nil {
+		p.M[t.name] = v
+	}
 }
 
 // Concretize forks over the feasible values of t and returns the one taken.
@@ -536,7 +557,7 @@ func (e *Explorer) run(harness string, workers int) {
 func runPath(P *Program, cfg *RunConfig, s *Solver, harness string, prefix []Dec) (res *PathResult, alts [][]Dec) {
 	s.Reset()
 	tb := NewTermBank()
-	p := &PathCtx{tb: tb, solver: s, prefix: prefix, asserts: map[string]*AssertSite{}, reached: map[string]bool{}, cfg: cfg, nameCount: map[string]int{}, twin: cfg.Twin}
+	p := &PathCtx{tb: tb, solver: s, prefix: prefix, asserts: map[string]*AssertSite{}, reached: map[string]bool{}, cfg: cfg, nameCount: map[string]int{}, decided: map[*Term]bool{}, twin: cfg.Twin}
 	in := &Interp{P: P, ex: p, tb: tb, globals: map[*ssa.Global]Ptr{}, budget: cfg.StepBudget,
 		sliceData: map[Ptr][]Value{}, objTags: map[any]string{}, funcsSeen: map[*ssa.Function]bool{},
 		nativeCache: map[string]any{}}
